@@ -202,9 +202,12 @@ func runUnary(cc *vgirpc.CallContext, p Params) (Script, Args, error) {
 func unaryOf[R any](name string) func(context.Context, *vgirpc.CallContext, Params) (R, error) {
 	return func(_ context.Context, cc *vgirpc.CallContext, p Params) (R, error) {
 		var zero R
-		_, a, err := runUnary(cc, p)
+		s, a, err := runUnary(cc, p)
 		if err != nil {
 			return zero, err
+		}
+		if s.UZero {
+			return zero, nil
 		}
 		return UnaryValue(name, a).(R), nil
 	}
